@@ -53,7 +53,7 @@ func must(err error, what string) {
 	}
 }
 
-var headers = []string{"", "prod"}
+var headers = []string{"", "prod", "default"}
 
 func newWorker(store, tmp string) *worker {
 	w := &worker{store: store, tmp: tmp, oracle: map[string]*sql.DB{}}
@@ -382,20 +382,6 @@ type verdict struct {
 	Oracle *answer
 	Cold   *answer
 	Warm   *answer
-	// StaleHit: the FIRST execution was already served from the transform cache, i.e. from an entry that
-	// another request (the same text under the other header value) had put there.
-	StaleHit bool
-}
-
-// crossPrefix marks a violation that only exists because of such an entry; its replay needs the other
-// request first.
-const crossPrefix = "served-from-cache-entry-of-other-header:"
-
-func otherHeader(h string) string {
-	if h == "" {
-		return "prod"
-	}
-	return ""
 }
 
 func (w *worker) judge(sqlText, header string, ordered bool) *verdict {
